@@ -84,7 +84,8 @@ type flowReplay struct {
 	Addr     string     `json:"exporter"`
 	Dgrams   []string   `json:"datagrams"`
 	Hdr      [][]uint32 `json:"expected_header"`
-	Expect   [][]string `json:"expected_records"` // per datagram, one string per record
+	Expect   [][]string `json:"expected_records"`                  // per datagram, one string per record
+	Restart  int        `json:"restart_before_datagram,omitempty"` // > 0: the cache is saved and loaded back before this datagram
 	At       int        `json:"failing_datagram"`
 	Got      []string   `json:"got_records,omitempty"`
 	Err      string     `json:"decoder_error,omitempty"`
@@ -137,6 +138,20 @@ func runFlowReplay(fr *flowReplay) (kind, what string) {
 	}
 	for i, h := range fr.Dgrams {
 		var d decoded
+		if fr.Restart > 0 && i == fr.Restart {
+			// a collector restart between the announcement and the data: Dump + GetCache, as shutdown() and start-up do
+			if f, err := os.CreateTemp(os.Getenv("VERIF_RUN"), "tplcache*.json"); err == nil {
+				f.Close()
+				if fr.Proto == "ipfix" {
+					ic.Dump(f.Name())
+					ic = ipfix.GetCache(f.Name())
+				} else {
+					nc.Dump(f.Name())
+					nc = netflow9.GetCache(f.Name())
+				}
+				os.Remove(f.Name())
+			}
+		}
 		if fr.Proto == "ipfix" {
 			d, _ = decodeIPFIX(addr, mon.UnHex(h), ic)
 		} else {
@@ -291,6 +306,9 @@ func flowMain(args mon.Args, prop, proto string) {
 				}
 				c.Expect = [][][]wire.ExpField{nil, exp}
 				fr := toReplay(c, elements)
+				if (int(e.ID)+int(l))%3 == 0 {
+					fr.Restart = 1
+				}
 				run.Eval(1)
 				sweepN++
 				typesSeen[e.Type]++
@@ -312,6 +330,10 @@ func flowMain(args mon.Args, prop, proto string) {
 			}
 			c := wire.GenFlowCase(g, proto, oo)
 			fr := toReplay(c, elements)
+			if len(c.Dgrams) > 1 && g.Chance(1, 4) {
+				fr.Restart = 1 + g.Intn(len(c.Dgrams)-1)
+				run.Add("histories_with_a_restart", 1)
+			}
 			run.Eval(1)
 			recs := 0
 			for _, e := range c.Expect {
@@ -358,7 +380,7 @@ func flowMain(args mon.Args, prop, proto string) {
 		}
 	}
 	run.Set("types_swept", typesSeen)
-	run.SetRule("model → independent encoder (wire/) → real Decode on a fresh cache → field-by-field comparison (id, enterprise number, Go type and value) with the snapshot's type table. Sweep: every element × every legal fixed length (1..size; 9 lengths and the varlen marker for string/octetArray) × boundary contents, complete. Random: exporter histories with 1-3 templates (plain/options, reduced sizes, varlen 1- and 3-octet prefixes, enterprise elements once the elements file is installed), 1-4 data sets, 1-40 records, legal padding; distinct = structural descriptor (field types/lengths/options split/record count/padding), non-trivial = at least one data record compared")
+	run.SetRule("model → independent encoder (wire/) → real Decode on a fresh cache → field-by-field comparison (id, enterprise number, Go type and value) with the snapshot's type table. Sweep: every element × every legal fixed length (1..size; 9 lengths and the varlen marker for string/octetArray) × boundary contents, complete. Random: exporter histories with 1-3 templates (plain/options, reduced sizes, varlen 1- and 3-octet prefixes, enterprise elements once the elements file is installed), 1-4 data sets, 1-40 records, legal padding; a third of the sweep pairs and a quarter of the histories save the cache and load it back (Dump + GetCache, a collector restart) between two datagrams; distinct = structural descriptor (field types/lengths/options split/record count/padding), non-trivial = at least one data record compared")
 	run.Assume("well-formedness contract of DESIGN.md Appendix A (element id 0, template withdrawal, RFC 6313 list internals not generated)")
 	run.Assume("fixtures/iana_ipfix_snapshot.tsv is the reference type table (C20 ties it to both in-repo tables)")
 	run.Finish()
